@@ -8,6 +8,11 @@ def R(pkg, run, quick, thorough, **kw):
 LAB = "./internal/zzverif/lab"
 
 CHECKS = {
+    "C18": {
+        "runs": [
+            R(LAB, "^TestC18", {"checks": 1500, "timeout": 600}, {"checks": 4000, "shards": 16, "timeout": 2400}),
+        ],
+    },
     "C04": {
         "runs": [
             R(LAB, "^TestC04", {"checks": 1500, "timeout": 600}, {"checks": 4000, "shards": 16, "timeout": 2400}),
@@ -49,6 +54,9 @@ CHECKS = {
 LEVELS = {}  # default: exploration
 
 RULES = {
+    "C18": "rapid draws a Via chain of 0-6 elements (other hops with comments / ports / pseudonyms, elements of a different instance with the same name incl. a live second instance's real element, and optionally this instance's own element - learned black-box from a first request - at any position, also in upper case which is not the emitted element), split over 1-3 field lines with Via/via/VIA spelling, "
+           "as absolute- or origin-form request, HTTP/1.0 or 1.1, sent to an instance directly or inside a MITM'd tunnel; or sent into real loop topologies A->A and A->B->A built from instances with static upstreams. Oracle: own element anywhere => 400 and no origin accept/byte; otherwise 200 and the origin sees the same elements in order plus exactly one appended element carrying the client's version; loops end with 400 at the client and the origin is never contacted. "
+           "Non-trivial = loop topology, own element among >=2 elements, same-name other-instance element, or several field lines. Distinct = distinct cases.",
     "C04": "rapid draws a configuration (basic auth with plain / colon-containing password, deny-domains list with an exclude rule, proxy-localhost deny/allow, allow-time-frame containing / excluding now (3 weekdays away), MITM on/off) and a connection history of 1-4 requests: absolute-form, origin-form, CONNECT, and requests inside the MITM'd tunnel; "
            "target host from DNS names (case variants, denied / excluded / look-alike) or 19+ localhost spellings (names from /etc/hosts parsed independently, any case, trailing dot, 127/8, 0.0.0.0, ::1 / :: in compressed, expanded, zero-padded, IPv4-mapped and zoned forms), with or without port; 20 credential shapes (absent, exact, wrong user/pass, prefix/suffix/case variants, lower-case scheme, Bearer, Digest, broken base64, missing colon, sent as Authorization, empty, two disagreeing fields, mixed-case field name); HTTP/1.0 and 1.1. "
            "Oracle: independent decision function -> set of failing controls; refusal status must be one of theirs, 407 must carry a Basic challenge, and dial log + accept and byte counters of every scripted origin must be unchanged; otherwise the origin must have served the request (tunnels are probed). "
@@ -77,6 +85,8 @@ RULES = {
 }
 
 ASSUMPTIONS = {
+    "C18": ["own element hidden inside another element's comment is not generated (the statement speaks of elements)",
+            "loops through CONNECT tunnels are outside the property (Via is not visible there)"],
     "C04": ["no precedence between simultaneously failing controls is asserted (status must be one of theirs)",
             "requests with several disagreeing Proxy-Authorization fields may be refused with 407 or forwarded",
             "deny rules are written with (?i); case handling of user regexps is C17's subject",
@@ -105,6 +115,11 @@ ASSUMPTIONS = {
 # MANIFEST texts
 
 META = {
+    "C18": {
+        "technique": "property-based testing (rapid): generated Via chains and field-line layouts against live instances, plus real one- and two-instance loop topologies; oracle = refusal/append rule with origin contact counters",
+        "text": "Generated chains decide refusal vs. forwarding exactly; the forwarded chain is compared element by element at the origin; real loops must terminate with 400 without origin contact. 1500 cases quick, 64000 thorough.",
+        "note": "Own element is learned black-box per instance; two extra instances share the default name to exercise same-name tags.",
+    },
     "C04": {
         "technique": "property-based testing (rapid): generated configurations x connection histories against real proxies, reference decision function as oracle, upstream activity measured by dial log and per-listener accept/byte counters",
         "text": "Every generated request is classified by an independent decision function; refusals are checked for status, challenge header and complete absence of upstream activity, admissible requests must reach the origin (also through CONNECT tunnels and inside MITM). 1500 histories quick, 64000 thorough.",
